@@ -153,6 +153,9 @@ var kinds = []string{
 	"scalar.arith", "scalar.observe",
 	"h2c.ro", "h2c.nu", "point.uniform",
 	"keys.derive", "keys.schnorr.derive",
+	// calls the library must refuse (they may leave pooled / cached state behind for the others), and
+	// aliasing calls on goroutine-private objects (a contended fast path may fall back to a slower one)
+	"rejected.calls", "private.alias",
 }
 
 func b2(bs ...[]byte) []byte {
@@ -261,6 +264,50 @@ func (e *env) exec(o op) []byte {
 		return b2(r.Bytes(), inv.Bytes(), sum.Bytes(), secp256k1.NewScalarFrom(e.scs[b3]).Bytes())
 	case "scalar.observe":
 		return []byte{byte(e.scs[a3].Equal(e.scs[b3])), byte(e.scs[a3].IsZero()), byte(e.scs[a3].IsGreaterThanHalfN()), e.scs[c3].Bytes()[31]}
+	case "rejected.calls":
+		var out []byte
+		rej := func(refused bool) {
+			out = append(out, flag(refused)...)
+		}
+		_, err := h2c.Secp256k1_XMD_SHA256_SSWU_RO(nil, e.dig[i])
+		rej(err != nil)
+		_, err = h2c.Secp256k1_XMD_SHA256_SSWU_NU([]byte{}, e.dig[j])
+		rej(err != nil)
+		twist := append([]byte{2}, make([]byte, 31)...)
+		twist = append(twist, 5) // x = 5: x^3 + 7 is not a square
+		_, err = secec.NewPublicKey(twist)
+		rej(err != nil)
+		_, err = secp256k1.NewPointFromBytes(twist)
+		rej(err != nil)
+		_, err = secec.ParseASN1PublicKey(e.dig[i])
+		rej(err != nil)
+		_, err = secec.NewPrivateKey(make([]byte, 32))
+		rej(err != nil)
+		_, err = e.priv[i].Sign(bytes.NewReader(bytes.Repeat([]byte{byte(o.C)}, 32)), e.dig[j][:31], nil)
+		rej(err != nil)
+		_, _, _, err = e.priv[i].SignRaw(bytes.NewReader(nil), e.dig[j]) // entropy source drained
+		rej(err != nil)
+		rej(!e.pub[i].VerifyRaw(e.dig[j][:31], e.scs[a3], e.scs[b3]))
+		rej(!e.pub[i].Verify(e.dig[j], e.dig[i], nil)) // not a DER signature
+		_, err = secec.RecoverPublicKey(e.dig[j], e.scs[a3], e.scs[b3], 7)
+		rej(err != nil)
+		_, err = bitcoin.NewSchnorrPublicKey(twist[1:])
+		rej(err != nil)
+		rej(!e.spub[i].Verify(e.dig[j], e.dig[i])) // 32-byte "signature"
+		return out
+	case "private.alias":
+		// this goroutine's own objects, used as receiver and operand at once
+		R := secp256k1.NewPointFrom(e.pts[c3])
+		R.DoubleScalarMultBasepointVartime(e.scs[a3], e.scs[b3], R)
+		S := secp256k1.NewPointFrom(e.pts[a3])
+		S.ScalarMult(e.scs[c3], S)
+		T := secp256k1.NewPointFrom(e.pts[b3])
+		T.MultiScalarMultVartime([]*secp256k1.Scalar{e.scs[a3], e.scs[b3]}, []*secp256k1.Point{T, e.pts[c3]})
+		U := secp256k1.NewPointFrom(e.pts[b3])
+		U.Add(U, U).Subtract(U, e.pts[a3])
+		k := secp256k1.NewScalarFrom(e.scs[a3])
+		k.Multiply(k, k).Add(k, e.scs[b3])
+		return b2(R.CompressedBytes(), S.CompressedBytes(), T.CompressedBytes(), U.CompressedBytes(), k.Bytes())
 	case "h2c.ro":
 		p, err := h2c.Secp256k1_XMD_SHA256_SSWU_RO(e.dst[j], e.dig[i])
 		if err != nil {
@@ -351,7 +398,21 @@ func workload(t *rapid.T, coldStart bool) {
 			ks = append(ks, gen.Sampled(kinds).Draw(t, "kind2"))
 		}
 		g = rapid.IntRange(2, 4).Draw(t, "goroutines")
+		if startProcs := runtime.GOMAXPROCS(0); startProcs <= 2 && rapid.Bool().Draw(t, "oversubscribe") {
+			g = 3*startProcs + 3 // more goroutines in flight than the process was started with processors
+		}
 		ops = drawOpsOf(t, g*rapid.IntRange(1, 3).Draw(t, "ops-per-goroutine"), ks)
+	} else if rapid.IntRange(0, 3).Draw(t, "contended") == 0 {
+		// contention: several times more goroutines than processors, nearly all inside the same expensive
+		// routine, a few doing aliasing calls on objects of their own.  Code that bounds its helpers by the
+		// processor count (worker slots, try-lock fast paths) takes its fallback branch only here.
+		heavy := gen.Sampled([]string{"ecdsa.verify", "ecdsa.verifyraw", "ecdsa.recover", "schnorr.verify", "ecdsa.bitcoin.verifyasn1",
+			"point.doublemult.vartime", "point.multimult.vartime", "point.scalarmult", "ecdsa.sign.hedged", "schnorr.sign", "h2c.ro"}).Draw(t, "heavy")
+		g = 3*runtime.GOMAXPROCS(0) + 2
+		if g > 64 {
+			g = 64
+		}
+		ops = drawOpsOf(t, 3*g, []string{heavy, heavy, heavy, "private.alias"})
 	} else if rapid.IntRange(0, 2).Draw(t, "small") == 0 {
 		// small workloads on fresh objects: first-use races inside an object (see above)
 		ks := []string{gen.Sampled(kinds).Draw(t, "kind0")}
